@@ -106,6 +106,17 @@ def table():
             row(f"selection.{kind}.k=n.len={n_list}", ACCEPT, lambda n_list=n_list, kind=kind: sel(n_list, n_list, kind),
                 "selection")
             row(f"selection.{kind}.k=1.len={n_list}", ACCEPT, lambda n_list=n_list, kind=kind: sel(n_list, 1, kind), "selection")
+    def sel_cum(sizes, n_plain, k, kind="exact"):
+        P()
+        ws = [ps.CumulativeWorker(name=f"c{i}", size=sz) for i, sz in enumerate(sizes)]
+        ws += [ps.Worker(name=f"w{i}") for i in range(n_plain)]
+        ps.SelectWorkers(list_of_workers=ws, nb_workers_to_select=k, kind=kind)
+
+    for kind in ("exact", "min", "max"):
+        row(f"selection.{kind}.with_cumulative3.k=n+1", REJECT, lambda kind=kind: sel_cum([3], 1, 3, kind), "selection")
+        row(f"selection.{kind}.with_cumulative3.k=n", ACCEPT, lambda kind=kind: sel_cum([3], 1, 2, kind), "selection")
+    row("selection.two_cumulative2.k=n+1", REJECT, lambda: sel_cum([2, 2], 0, 3), "selection")
+    row("selection.two_cumulative2.k=n", ACCEPT, lambda: sel_cum([2, 2], 0, 2), "selection")
     for size in (0, 1):
         row(f"cumulative.size={size}", REJECT, lambda size=size: (P(), ps.CumulativeWorker(name="c", size=size)), "cumulative")
     for size in (2, 3):
